@@ -79,7 +79,8 @@ def exhaustive_block(tier):
         feats = [[sp, m] for sp in span_sets(L) for m in (False, True)]
         for impl in ("old", "new"):
             for off in (0, 3):
-                for ops in chains(L, deep=True):
+                # quick tier: the 2-deep chains only without annotation offset
+                for ops in chains(L, deep=(tier != "quick" or off == 0)):
                     idx, _ = view_positions(L, ops)
                     if not idx:
                         continue
@@ -421,8 +422,10 @@ def compare_case(rep, c, impl, model, stats, pending):
                     expect_present = (fs < win[1] and win[0] < fe) if q[2] else (win[0] <= fs and fe <= win[1])
                     # raising on a proper window is a violation whether or not the feature should be returned
                     violated = True
-                    rep.violation(f"{tag}:raised:E{got.code}:{'partial' if q[2] else 'within'}:"
-                                  f"{'span-ends-at-view-start' if abuts_start(c, v_idx, spans) else 'other'}",
+                    abut = abuts_start(c, v_idx, spans)
+                    rep.violation((f"query:raised:E{got.code}:{'partial' if q[2] else 'within'}:span-ends-at-view-start" if abut
+                                   else f"{tag}:{'rev' if rev else 'fwd'}" if added
+                                   else f"query:raised:E{got.code}:{'partial' if q[2] else 'within'}:other"),
                                   dict(case=dict(c, feats=[c["feats"][k]] if not added else c["feats"], queries=[q]), query=q,
                                        feature=f, expected_by_spec=dict(returned=expect_present), observed_impl=i_items[k],
                                        model_output=jsonable(mm),
